@@ -155,6 +155,83 @@ def text_meta(n, cs=0, tb=1):
     return [1, tb, n] + [(65 + (i * 7) % 26) if cs else (32 + (i * 11) % 224) for i in range(n)]
 
 
+def ill_typed_and_limit(out, rng):
+    """implementation against the statement, for values the integer wire cannot carry: (a) items and attribute values that are not
+    integers (floats, also integral ones, Fraction, str, None, bool stays an int) at every position of a sequencer_specific payload and on
+    every integer attribute: whatever the constructor or an assignment accepts must encode to bytes; (b) text / data payloads of exactly
+    the reader's limit, one below and one above, through bytes(), from_bytes and the file reader"""
+    import io
+    from fractions import Fraction
+    import mido
+    from mido.midifiles.midifiles import MAX_MESSAGE_LENGTH
+    n = 0
+
+    def judge(what, make):
+        nonlocal n
+        n += 1
+        try:
+            m = make()
+        except (ValueError, TypeError):
+            return
+        except Exception as e:  # noqa: BLE001
+            out.failures.append(('check-raises:' + type(e).__name__, '%s raised %r' % (what, e), {'component': 'ill-typed', 'what': what}))
+            return
+        try:
+            bs = m.bytes()
+            ok = all(isinstance(b, int) and not isinstance(b, bool) and 0 <= b <= 255 for b in bs) and mido.MetaMessage.from_bytes(bs) == m
+        except Exception as e:  # noqa: BLE001
+            ok = False
+            bs = repr(e)
+        if not ok:
+            out.failures.append(('accepted-not-bytes', '%s was accepted but encodes to %r' % (what, bs if isinstance(bs, str) else bs[:12]),
+                                 {'component': 'ill-typed', 'what': what}))
+    bad_items = [1.5, 2.0, 0.0, 255.0, Fraction(15, 2), Fraction(4, 2), '7', None, 256, -1, 1e3, float('nan')]
+    for bad in bad_items:
+        for good in ([], [0], [255], [0, 255], [7, 9], [0, 128, 255]):
+            for pos in range(len(good) + 1):
+                data = good[:pos] + [bad] + good[pos:]
+                judge('MetaMessage(sequencer_specific, data=%r)' % (data,), lambda data=data: mido.MetaMessage('sequencer_specific', data=data))
+
+                def assign(data=data):
+                    m = mido.MetaMessage('sequencer_specific', data=[1])
+                    m.data = data
+                    return m
+                judge('sequencer_specific.data = %r' % (data,), assign)
+    ints = [('set_tempo', 'tempo'), ('sequence_number', 'number'), ('channel_prefix', 'channel'), ('midi_port', 'port'), ('time_signature', 'numerator'),
+            ('time_signature', 'clocks_per_click'), ('smpte_offset', 'minutes'), ('smpte_offset', 'sub_frames')]
+    for typ, attr in ints:
+        for bad in [1.5, 2.0, Fraction(3, 1), '3', None, [3], (3,)]:
+            judge('MetaMessage(%s, %s=%r)' % (typ, attr, bad), lambda typ=typ, attr=attr, bad=bad: mido.MetaMessage(typ, **{attr: bad}))
+    # the reader's limit
+    for size in (MAX_MESSAGE_LENGTH - 1, MAX_MESSAGE_LENGTH, MAX_MESSAGE_LENGTH + 1):
+        for make in (lambda k: mido.MetaMessage('text', text='a' * k, time=3), lambda k: mido.MetaMessage('sequencer_specific', data=[7] * k, time=3)):
+            n += 1
+            m = make(size)
+            try:
+                bs = m.bytes()
+                back = mido.MetaMessage.from_bytes(bs)
+                if not (back == m.copy(time=0)):
+                    out.failures.append(('limit-roundtrip', 'a %s payload of %d bytes does not survive bytes()/from_bytes' % (m.type, size), {'component': 'limit', 'size': size}))
+                    continue
+                ev = bytes([3]) + bytes(bs) + bytes([0, 0xFF, 0x2F, 0])
+                data = b'MThd' + (6).to_bytes(4, 'big') + b'\x00\x01\x00\x01\x01\xe0' + b'MTrk' + len(ev).to_bytes(4, 'big') + ev
+                try:
+                    mf = mido.MidiFile(file=io.BytesIO(data))
+                    loaded = mf.tracks[0][0]
+                    if size > MAX_MESSAGE_LENGTH:
+                        out.failures.append(('limit-accepted', 'a payload of %d bytes, above the limit, was read from a track' % size, {'component': 'limit', 'size': size}))
+                    elif not (loaded == m):
+                        out.failures.append(('limit-roundtrip', 'a %s payload of %d bytes read from a track differs' % (m.type, size), {'component': 'limit', 'size': size}))
+                except OSError as e:
+                    if size <= MAX_MESSAGE_LENGTH:
+                        out.failures.append(('limit-refused', 'a %s payload of %d bytes (within the limit of %d) is refused by the file reader: %r'
+                                             % (m.type, size, MAX_MESSAGE_LENGTH, e), {'component': 'limit', 'size': size}))
+            except Exception as e:  # noqa: BLE001
+                out.failures.append(('limit-raises:' + type(e).__name__, 'a %s payload of %d bytes: %r' % (m.type, size, e), {'component': 'limit', 'size': size}))
+    out.evaluations += n
+    out.components['ill-typed values and the reader limit (implementation against the statement)'] = {'cases': n}
+
+
 def run(out):
     rng = random.Random(out.seed)
     cases = []
@@ -224,6 +301,7 @@ def run(out):
             b2 = list(bs); b2[rng.randrange(len(b2))] = rng.randrange(256); fb.append([0] + b2)
     fb += [[0], [0, 255], [0, 255, 1], [0, 255, 1, 0], [0, 255, 1, 1, 65], [0, 255, 1, 0x81, 0x00] + [65] * 128, [0, 255, 1, 0x80, 0x01, 65],
            [0, 255, 1, 0, 1, 65], [0, 0x90, 1, 2], [0, 255, 0x51, 2, 1, 2], [0, 255, 0, 1, 5], [0, 255, 0x54, 5, 0x80, 0, 0, 0, 0], [0, 255, 0x59, 2, 8, 0]]
+    ill_typed_and_limit(out, rng)
     accept = [c[1:] for c in cases if c[1] not in (1, 9, 10)]
     jobs = chunk_jobs(cases, 'meta', sc.COMP_META_BYTES) + chunk_jobs(fb, 'from_bytes', sc.COMP_META_FROM_BYTES, 8)
     for tag, rec in core.pmap(job, jobs):
